@@ -298,7 +298,7 @@ pub fn history_strategy() -> impl Strategy<Value = History> {
 }
 
 pub fn run(rep: &mut Report) {
-    let n = rep.n(200000, 2000000);
+    let n = rep.n(200000, 10000000);
     rep.run_prop(
         "strings",
         "strings from seven classes (reference-written tokenized / partial strings, point mutations \
@@ -311,7 +311,7 @@ output re-parses. Non-trivial = accepted annotated string with >= 1 escape and >
         || string_strategy(14),
         test_string,
     );
-    let n = rep.n(60000, 600000);
+    let n = rep.n(60000, 3000000);
     rep.run_prop(
         "histories",
         "sequences of 1-8 update_raw/update_tokenized/update_partial_annotation/reset_tags(k<=4) \
